@@ -182,3 +182,7 @@ func vMetaInt(c *Cache, target, name string) int64 {
 	}
 	return v
 }
+
+func vIntVal(v int64) *pb.TypedValue {
+	return &pb.TypedValue{Value: &pb.TypedValue_IntVal{IntVal: v}}
+}
